@@ -1273,6 +1273,11 @@ func (schema *Schema) visitEnumOperation(settings *schemaValidationSettings, val
 				if v == float64(c) {
 					return
 				}
+			case int32:
+				// parameters of format int32 are decoded to int32
+				if v == float64(c) {
+					return
+				}
 			default:
 				if reflect.DeepEqual(v, value) {
 					return
